@@ -131,10 +131,25 @@ fn render_report(solver: &DefaultSolver<f64>, o: &SolveOut, ev: &[observer::Even
     // whose figures: the loop was left through the rollback (`Fail` of the insufficient-progress
     // checkpoint) => the last pass but one, otherwise the last pass.  (Not the `snap` search of
     // the shared code: two different internal iterates can un-scale to bit-identical vectors.)
+    //
+    // `prev_vars` holds the iterate of the last pass that reached `save_prev_iterate` (flag
+    // `small_step` = NoUpdate is the last checkpoint before it).  That is the last pass but one
+    // unless passes in between were strategy-switch retries (`continue` without a step: the
+    // nonsymmetric PrimalDual -> Dual switch), which re-evaluate the same iterate.
     let mut own = 0usize;
+    let (mut cur, mut saved): (usize, Option<usize>) = (0, None);
+    let mut seen = 0usize;
     for e in ev {
-        if let observer::Event::Flag("insufficient_progress", v) = e {
-            own = if v == "Fail" { 1 } else { 0 };
+        match e {
+            observer::Event::Pass(_) => {
+                cur = seen;
+                seen += 1;
+            }
+            observer::Event::Flag("small_step", v) if v == "NoUpdate" => saved = Some(cur),
+            observer::Event::Flag("insufficient_progress", v) => {
+                own = if v == "Fail" { saved.map(|k| passes.len().saturating_sub(1).saturating_sub(k)).unwrap_or(passes.len()) } else { 0 };
+            }
+            _ => {}
         }
     }
     let (figs, own_match) = if own < passes.len() {
